@@ -13,6 +13,8 @@ import LitexModel.RoundRobin
   * `rr_bounded_wait`     SP_WITHDRAW, port `i` requesting throughout: (#grant changes) + dist(final, i) ≤ dist(initial, i) ≤ n-1
   * `rr_stalls_bounded`   … and the number of cycles in which `i` waits while the owner is not requesting is ≤ n-1
   * `rr_keep_granted`     … and once granted, `i` stays granted
+  * `rr_bounded_wait_any` both policies, while `i` is waiting: (#grant changes) + dist(final, i) ≤ dist(initial, i)
+  * `rr_ce_stalls_bounded` SP_CE: `i` waits through at most n-1 cycles with `ce` asserted
 -/
 namespace Litex.RoundRobin
 
@@ -284,5 +286,70 @@ theorem rr_keep_granted {n i : Nat} (hi : i < n) :
     simp only [run]
     rw [next_withdraw_keep r ce hi (hreq (r, ce) (by simp))]
     exact ih (fun rc h => hreq rc (by simp [h]))
+
+/-! ### Both policies: the waiting phase -/
+
+/-- Port `i` is not the owner at any cycle of the run (it is still waiting). -/
+def waiting (p : Policy) (n i : Nat) : Nat → List ((Nat → Bool) × Bool) → Prop
+  | _, [] => True
+  | g, (r, ce) :: rest => g ≠ i ∧ waiting p n i (next p n g r ce) rest
+
+/-- **Bounded waiting, both policies.**  While port `i` requests and has not been granted yet, every grant change
+    brings the pointer strictly closer: (#grant changes) + dist(final, i) ≤ dist(initial, i) ≤ n-1.  (Under SP_CE
+    the grant leaves a requesting owner when `ce` is asserted, hence the restriction to the waiting phase.) -/
+theorem rr_bounded_wait_any (p : Policy) {n i : Nat} (hi : i < n) :
+    ∀ (l : List ((Nat → Bool) × Bool)) {g : Nat}, g < n → (∀ rc ∈ l, rc.1 i = true) → waiting p n i g l →
+      changes p n g l + dist n (run p n g l) i ≤ dist n g i ∧ dist n g i ≤ n - 1 := by
+  intro l
+  induction l with
+  | nil =>
+    intro g hg _ _
+    have := dist_lt n g i (by omega)
+    simp [changes, run]; omega
+  | cons rc rest ih =>
+    intro g hg hreq hw
+    obtain ⟨r, ce⟩ := rc
+    have hri : r i = true := hreq (r, ce) (by simp)
+    have hg' := next_lt p r ce hg
+    have ih' := (ih hg' (fun rc h => hreq rc (by simp [h])) hw.2).1
+    have hdn := dist_lt n g i (by omega)
+    refine ⟨?_, by omega⟩
+    simp only [changes, run]
+    by_cases hch : next p n g r ce = g
+    · simp only [hch, ne_eq, not_true_eq_false, if_false] at ih' ⊢
+      omega
+    · have := dist_next_lt p r ce hg hi (Ne.symm hw.1) hri hch
+      simp only [ne_eq, hch, not_false_eq_true, if_true]
+      omega
+
+/-- SP_CE: every enabled cycle (`ce`) in which `i` waits hands the grant on, so `i` waits through at most `n-1`
+    of them. -/
+def ceStalls (n i : Nat) (g : Nat) : List ((Nat → Bool) × Bool) → Nat
+  | [] => 0
+  | (r, ce) :: rest => (if g ≠ i ∧ ce = true then 1 else 0) + ceStalls n i (next .ce n g r ce) rest
+
+theorem rr_ce_stalls_bounded {n i : Nat} (hi : i < n) :
+    ∀ (l : List ((Nat → Bool) × Bool)) {g : Nat}, g < n → (∀ rc ∈ l, rc.1 i = true) → waiting .ce n i g l →
+      ceStalls n i g l + dist n (run .ce n g l) i ≤ dist n g i := by
+  intro l
+  induction l with
+  | nil => intro g _ _ _; simp [ceStalls, run]
+  | cons rc rest ih =>
+    intro g hg hreq hw
+    obtain ⟨r, ce⟩ := rc
+    have hri : r i = true := hreq (r, ce) (by simp)
+    have hg' := next_lt .ce r ce hg
+    have ih' := ih hg' (fun rc h => hreq rc (by simp [h])) hw.2
+    simp only [ceStalls, run]
+    by_cases hce : ce = true
+    · subst hce
+      have := (next_ne_self_of_other_req .ce r true hg hi (Ne.symm hw.1) hri (by simp [enabled])).2
+      simp only [hw.1, ne_eq, not_false_eq_true, and_self, if_true]
+      omega
+    · have hce' : ce = false := by simpa using hce
+      subst hce'
+      rw [next_ce_hold r hg] at ih' ⊢
+      simp
+      omega
 
 end Litex.RoundRobin
